@@ -37,21 +37,34 @@ RULE = ('Parser level, both framing versions. (1) Mutation grammar over valid fr
         'call never returns, an asynchronous caller cannot parse, a reply that is not well-formed; take_notification returns exactly the '
         'well-formed notifications sent, in order, with a usable notification_ele, never a payload that is not well-formed; only a payload that '
         'is not XML may end the session and then everything outstanding is failed; every request of a LATER phase whose valid reply is sent '
-        'holds it. Session clause on the extended session LTS (coq/Model/SessionSoft.v = SessionLTS + the non-fatal error broadcast of '
+        'holds it. (e) scenario e (c14_hist.run_end_script), the END of a session with LEFTOVERS in the receive buffer: 1-3 requests outstanding '
+        '(asynchronous, and synchronous in their own threads), some answered, then the beginning of a frame and nothing more (1.0: no / a partial '
+        ']]>]]>; 1.1: chunk shorter than its header, complete chunk without end-of-chunks, short second chunk, partial next header) that stops '
+        'inside a 2/3/4-octet character, after a stray 0xff / continuation octet, an overlong form or a surrogate (controls: complete character, '
+        'ASCII, nothing); then the session ends - session.close(), Manager.close_session() synchronous and asynchronous, leaving the Manager\'s '
+        'with-block, peer EOF, peer reset - after the octets were taken in or racing with them; quick: every undecodable leftover x both framings '
+        'with the way of ending rotating (by seed), thorough: every leftover x framing x ending. Oracle: a request whose complete reply preceded '
+        'the leftover holds exactly it, EVERY other request is failed with an exception object within 3 s (a synchronous call raises) - never left '
+        'waiting -, nothing of the unfinished frame is called back, connected is False, the session thread has ended, the local close returned, at '
+        'least one error was broadcast, a request made afterwards is refused / failed at once. '
+        'Session clause on the extended session LTS (coq/Model/SessionSoft.v = SessionLTS + the non-fatal error broadcast of '
         'Session._dispatch_message + the malformed notification; runner LTSX): deterministic-scheduler runs of the real Session.run / RPC / '
         'listener threads - a sweep of every profile x every hostile text x both framings and of every malformed body behind a <notification> '
         '/ <rpc-reply> start tag, pre-emption-bounded schedules of five small scenarios, random scenarios (half of them histories) - validated '
         'label by label against the extracted model and judged by oracle_c14 (tools/harness/lts_check.py): a stored reply is a message the '
         'server sent with that id, a payload that is not well-formed is never returned / parsable / taken / queued, a failed request failed with '
         'an error that was broadcast while it existed (or was refused by a closed session), a valid reply received before the wait ended is '
-        'delivered.')
+        'delivered. End of a session with leftovers on the LTS too (lts_check.gen_c14_end, c14_sweep, one more small scenario for the schedule '
+        'enumeration): server action partial k cut (unfinished reply cut inside a 2- / 4-octet character, after a stray 0xff, or decodable) '
+        'followed by the client op close (after the octets were consumed, or racing), by eof or by a failing read; once the session thread has '
+        'stopped the session is disconnected, no request it had written is left in the pending table and none waits out its own timeout.')
 ASSUMES = ['CPython bytes/str/re built-ins behave as modelled (validated by every case)',
            'session level runs on wall-clock time with bounds of 3-5 s; a failing run is re-executed and reported only if it fails three times',
            'what a listener does with a delivered text (RPCReplyListener message-id matching) is covered by C03/C04; here only: garbage frames never reach an RPC as data',
            'an asynchronous caller that reads RPCReply.xml of a reply whose body is not well-formed sees the raw text (documented lazy parsing); every parsed view (parse(), ok, error, data) raises: the checks require the latter',
            'which payloads a profile answers with an exception (non-fatal broadcast) is read off the run (an error broadcast followed by more work of the session thread), not assumed: dropped, failing the outstanding requests, or ending the session are all accepted, each with its own consequences checked']
 TRUSTED = ['modelled, not verified: CPython bytes/str/re built-ins used by parser.py',
-           'tools/harness/framing.py (ParserRig, oracle10/oracle11, SessionRig)', 'tools/harness/c14_hist.py (HistRig, scenario h)',
+           'tools/harness/framing.py (ParserRig, oracle10/oracle11, SessionRig)', 'tools/harness/c14_hist.py (HistRig, scenarios h and e)',
            'tools/harness/lts.py / sched.py / lts_check.py (scenario runner, deterministic scheduler, effect log -> labels)', 'expat (independent well-formedness reader)']
 ALLOWED_AXIOMS = []
 
@@ -511,6 +524,9 @@ def run_any_script(case):
     if case.get('scenario') == 'h':
         from harness import c14_hist
         return c14_hist.run_script(case)
+    if case.get('scenario') == 'e':
+        from harness import c14_hist
+        return c14_hist.run_end_script(case)
     return run_script(case)
 
 
@@ -523,7 +539,7 @@ def session_level(ctx):
     # (quick: each profile once, the framing alternates with the profile and the seed; the session LTS part sweeps all of them)
     nh = len(c14_hist.PROFILES) * (1 if quick else 10)
     plan = [('abc', i) for i in range(n)] + [('h', j) for j in range(nh)]
-    cases = []
+    cases = [('e', c['base'], c) for c in c14_hist.end_scripts(rng, quick, ctx.seed)]
     for kind, i in plan:
         if kind == 'h':
             base = 10 if (i + ctx.seed + i // len(c14_hist.PROFILES)) % 2 == 0 else 11
@@ -551,6 +567,9 @@ def session_level(ctx):
             ctx.hist('session_profile', case['profile']); ctx.hist('session_end', 'ended' if not obs.get('connected', True) else 'alive')
             for ph in case['phases']:
                 for it in ph['items']: ctx.hist('session_hist_item', it[0])
+        elif scen == 'e':
+            ctx.hist('session_end_how', case['end']); ctx.hist('session_end_leftover', case['tail']); ctx.hist('session_end_shape', case['shape'])
+            ctx.hist('session_pending', len(case['reqs']) - len(case['answered']))
         else:
             ctx.hist('session_pending', case['n_rpc'])
         if ok:
@@ -648,6 +667,9 @@ def replay(doc):
         ok, what, sig, obs = run_any_script(c)
         if c['scenario'] == 'h':
             print('case     : session history, profile %s, base 1.%d, phases %r' % (c['profile'], c['base'] - 10, c['phases']))
+        elif c['scenario'] == 'e':
+            print('case     : end of session, profile %s, base 1.%d: requests (sync?) %r, answered %r, then an unfinished frame (%s, %s, leftover %s), then %s'
+                  % (c['profile'], c['base'] - 10, c['reqs'], c['answered'], c['about'], c['shape'], c['tail'], c['end']))
         else:
             print('case     : session scenario %s, base 1.%d, %d pending, items %r' % (c['scenario'], c['base'] - 10, c['n_rpc'], c['items']))
         print('expected :', doc.get('expected')); print('actual   :', obs)
